@@ -250,6 +250,33 @@ func PointTimed(name string, enabled func() bool, wakeAt func() time.Time) {
 	t.h = mix(t.h, strHash(name)) // the pending operation is about to execute: the thread's position changed
 }
 
+// Choose is an environment choice point with n alternatives that the explorer enumerates like a scheduling
+// choice: answer 0 is the default, any other answer is a deviation (it costs one unit of the bound).
+func Choose(name string, n int) int {
+	s := Current()
+	if s == nil || n <= 1 || s.teardown || Free() {
+		return 0
+	}
+	k := len(s.Trace)
+	idx := 0
+	if k < len(s.prefix) {
+		idx = s.prefix[k]
+		if idx >= n {
+			s.Diverged = fmt.Sprintf("replay divergence at choice %d (%s): answer %d of %d; log=%v", k, name, idx, n, s.Log)
+			s.startTeardown()
+			runtime.Goexit()
+		}
+	}
+	st := Step{N: n, Chosen: idx, CurEnabled: true}
+	if DebugNames {
+		st.Names = []string{"choose:" + name}
+		st.Clock = s.clock
+	}
+	s.Trace = append(s.Trace, st)
+	s.cur.h = mix(s.cur.h, strHash(name)+uint64(idx)*0x9e3779b97f4a7c15)
+	return idx
+}
+
 // WaitUntil parks the calling thread until pred holds (a harness gate).
 func WaitUntil(name string, pred func() bool) {
 	if Free() {
@@ -586,9 +613,21 @@ var siteLocs = []string{"?"}
 func RegisterSites(names, locs []string) uint32 {
 	base := uint32(len(siteNames))
 	siteNames = append(siteNames, names...)
-	siteLocs = append(siteLocs, locs...)
+	for _, l := range locs {
+		if strings.HasSuffix(l, "#map") { // the transformer marks fields of map type
+			l = strings.TrimSuffix(l, "#map")
+			mapLocs[l] = true
+		}
+		siteLocs = append(siteLocs, l)
+	}
 	return base
 }
+
+var mapLocs = map[string]bool{}
+
+// IsMapLoc: the location is a struct field of map type. Unordered conflicting accesses to a Go map are not
+// only a data race: the runtime detects them and kills the process ("fatal error: concurrent map writes").
+func IsMapLoc(loc string) bool { return mapLocs[loc] }
 
 // NewSite registers one access site (used by the shims for their own objects).
 func NewSite(fn, loc string) uint32 {
